@@ -10,3 +10,26 @@ mod migration;
 mod recover;
 pub mod service;
 mod sync;
+
+// Verification hooks (no behaviour change): re-export private modules for the /verif harness.
+#[cfg(undermoon_verif)]
+pub mod verif_export {
+    pub mod api {
+        pub use super::super::api::*;
+    }
+    pub mod core {
+        pub use super::super::core::*;
+    }
+    pub mod detector {
+        pub use super::super::detector::*;
+    }
+    pub mod migration {
+        pub use super::super::migration::*;
+    }
+    pub mod recover {
+        pub use super::super::recover::*;
+    }
+    pub mod sync {
+        pub use super::super::sync::*;
+    }
+}
